@@ -455,13 +455,33 @@ def r8_combiners_keep_both(run, F):
                     body = hirq.unwrap_trivial(a["body"])
                     ok = bool(lids) and body.get("k") == "Call" and (hirq.callee(body) or "").endswith("Err") and any(hirq.uses_local(body, x) for x in lids)
                 run.ob("R8-COMBINERS-KEEP-BOTH", name + "|(%s, %s)" % kinds, ok, F.where(b, a or m), "one error list: it is the outcome")
-    run.floor("R8-COMBINERS-KEEP-BOTH", 16, "obligations on the four places where two results are joined (combine, accumulate, Vec fold, pair)")
+    # the wider tuples are built on the pair: one `.resolve()?` on a nesting of pairs; two in sequence would stop at the first half that
+    # fails (the parameters of a function) and never report the errors of the second (its body)
+    for p, b in sorted(C.bodies.items()):
+        if "hir" not in b or not p.endswith("alpha::resolver::Resolvable>::resolve") or not p.startswith("<("):
+            continue
+        width = p.split(" as ")[0].count(",") + 1
+        if width < 3:
+            continue
+        tries = []
+        for x in walk(b["hir"]):
+            if x.get("k") == "Match" and "Try" in str(x.get("msrc")):
+                sc = hirq.unwrap_trivial(x["scrut"])
+                arg = hirq.unwrap_trivial(sc["a"][0]) if sc.get("a") else {}
+                if arg.get("k") == "MethodCall" and arg.get("name") == "resolve":
+                    tries.append(x)
+        run.ob("R8-COMBINERS-KEEP-BOTH", "%d-tuple|one resolve" % width, len(tries) == 1, F.where(b, tries[1]) if len(tries) > 1 else F.where(b),
+               "the %d-tuple resolves all its parts in one `.resolve()?` on nested pairs (found %d): the errors of all parts are reported together" % (width, len(tries)))
+    run.floor("R8-COMBINERS-KEEP-BOTH", 18, "obligations on the four places where two results are joined (combine, accumulate, Vec fold, pair)")
 
 
 def check(run):
     F = run.facts("B")
     r7_errors_merged(run, F)
     r8_combiners_keep_both(run, F)
+    # a `loop` that ends a block is only *accepted* if the looped block compiles: the back edge needs a block of its own (shared with C03.R11)
+    from props import c03 as _c03
+    _c03.r11_branch_targets(run, F)
     r1_emission(run, F)
     r2_flags(run, F)
     r3_lint(run, F)
